@@ -74,6 +74,23 @@ def _ld_sensitivity(m, ctx, X, i):
                 worst = max(worst, abs(float(m(Xp, ctx)[1][i] - base)))
             except Exception:
                 pass
+        # element by element as well: a row with one element on the upper and one on the lower end of a box cannot be moved as a
+        # whole in either direction without leaving the domain, and boundary layers (a flat bin with a steep end derivative: the
+        # log-derivative changes by 1e-2 within 4 ulps) sit exactly there
+        flat = X[i].reshape(-1)
+        if flat.numel() <= 64:
+            tot = 0.0
+            for j in range(flat.numel()):
+                wj = 0.0
+                for sgn in (-1.0, 1.0):
+                    Xp = X.clone()
+                    Xp[i].reshape(-1)[j] = flat[j] + sgn * 16 * 2.2e-16 * (1.0 + float(flat[j].abs()))
+                    try:
+                        wj = max(wj, abs(float(m(Xp, ctx)[1][i] - base)))
+                    except Exception:
+                        pass
+                tot += wj
+            worst = max(worst, tot)
     return 4 * worst if worst == worst else 0.0
 
 
@@ -121,7 +138,8 @@ def _run_case(case):
                 with torch.no_grad():
                     y, ldf = m(X, ctx)
                     xh, ldi = m.inverse(y, ctx)
-                    y2, ldf2 = m(xh, ctx)
+                    # (a non-finite inverse is judged below; feeding NaN on into forward is not a question about the library)
+                    y2, ldf2 = m(xh, ctx) if bool(torch.isfinite(xh).all()) else (xh, ldi)
             except Exception as e:
                 if type(e).__name__ == "InputOutsideDomain" and case["spec"]["t"] == "composite":
                     # e.g. log(exp(1.0)) = 1 + 1ulp fed back into a [0,1] spline: rounding of the *other* parts, correctly
@@ -172,7 +190,8 @@ def _run_case(case):
                     if not b.smooth and bool(special[i].any()):
                         res.labels.append("kink_negation_skipped")  # C0-only maps: the two calls may sit on either side of a kink
                         continue
-                    t2 += _ld_sensitivity(m, ctx, xh, i) + _ld_sensitivity(m.inverse, ctx, y, i)
+                    if e2 > t2:
+                        t2 += _ld_sensitivity(m, ctx, xh, i) + _ld_sensitivity(m.inverse, ctx, y, i)
                     res.see_ratio(e2, t2)
                     if e2 > t2:
                         res.fail("logdet_not_negated", site, "row %d: inverse(y).logabsdet=%.12g but forward(inverse(y)).logabsdet=%.12g" % (
@@ -249,7 +268,8 @@ def _run_case(case):
                     if not b.smooth and bool(ysp[i].any()):
                         res.labels.append("kink_negation_skipped")
                         continue
-                    t2 += _ld_sensitivity(m, ctx, x0, i) + _ld_sensitivity(m.inverse, ctx, Y, i)
+                    if e2 > t2:
+                        t2 += _ld_sensitivity(m, ctx, x0, i) + _ld_sensitivity(m.inverse, ctx, Y, i)
                     if e2 > t2:
                         res.fail("logdet_not_negated", site, "row %d: inverse(y).logabsdet=%.12g but forward(inverse(y)).logabsdet=%.12g" % (
                             i, float(ldi0[i]), float(ldf1[i])), measured=e2, tol=t2)
